@@ -33,6 +33,7 @@ def parse_ann(node, tv):
         if n == 'bool': return BOOL
         if n == 'str': return STR
         if n == 'IARR': return IARR
+        if n == 'THUNK_STR': return Ty('thunk', STR)
         if n == 'Self': return Ref(tv.get('Self', 'object'))
         if n in tv: return Ref(tv[n])
         return Ref(n)
@@ -94,6 +95,7 @@ class Program:
         for c in s.mro(cls):
             for m in s.classes[c].methods.get(name, []):
                 decs = [ast.unparse(d) for d in m.decorator_list]
+                if any(d.split('.')[-1] == 'overload' for d in decs): continue      # typing.overload stubs: the real definition follows
                 if kind == 'setter' and not any(d.endswith('.setter') for d in decs): continue
                 if kind == 'getter' and 'property' not in decs: continue
                 return c, m
@@ -116,6 +118,7 @@ class Heap:
 _fresh = itertools.count(); pyvc_fresh = _fresh
 def fresh(name, sort): return Const(f'{name}!{next(_fresh)}', sort)
 def sort_of(ty):
+    if ty.kind == 'thunk': return I
     if ty.kind == 'bool': return B
     if ty.kind == 'iarr': return IA
     return I
@@ -336,7 +339,9 @@ class Exec:
             c, m = s.super_method(cur_owner, e.attr, 'getter') if cur_owner else (None, None)
             if m is None: raise Unsupported(f'super().{e.attr}')
             return s.call(st, m, [st.env['self']], owner=c)
-        o = s.ev(st, e.value)
+        if isinstance(e.value, ast.Call) and isinstance(e.value.func, ast.Name) and e.value.func.id == 'type' and len(e.value.args) == 1:
+            o = s.ev(st, e.value.args[0])
+        else: o = s.ev(st, e.value)
         if o.ty.kind != 'ref': raise Unsupported(f'attr on {o.ty}: {ast.unparse(e)}')
         cls = o.ty.arg
         s.oblige(st, f'nonnull[{ast.unparse(e.value)}]@{e.lineno}', o.t != 0, 'safety')
@@ -439,11 +444,21 @@ class Exec:
             if n == 'isinstance' and isinstance(e.args[1], ast.Name) and e.args[1].id in s.p.classes and s.ev(st, e.args[0]).ty.kind == 'ref' \
                     and e.args[1].id not in (s.p.mro(s.ev(st, e.args[0]).ty.arg) if s.ev(st, e.args[0]).ty.arg in s.p.classes else []):
                 return SV(s.isinst(s.ev(st, e.args[0]), e.args[1].id), BOOL)
+            if n == 'isinstance' and isinstance(e.args[1], ast.Name) and e.args[1].id in ('str', 'int', 'bool'):
+                v = s.ev(st, e.args[0]); return SV(BoolVal(v.ty == {'str': STR, 'int': INT, 'bool': BOOL}[e.args[1].id]), BOOL)
             if n == 'isinstance':
                 v = s.ev(st, e.args[0]); c = e.args[1].id
                 if c == 'list': return SV(BoolVal(v.ty.kind == 'list'), BOOL)
                 if v.ty.kind == 'ref' and c in s.p.classes and c in s.p.mro(v.ty.arg): return SV(v.t != 0, BOOL)
                 raise Unsupported(f'isinstance {c}')
+            if n == 'next' and len(e.args) == 2:
+                v = s.ev(st, e.args[0]); dflt = s.ev(st, e.args[1])
+                if v.ty.kind != 'list': raise Unsupported('next() of a non-list iterator model')
+                return SV(If(s.llen(st.heap, v) > 0, Select(s.lelem(st.heap, v), 0), dflt.t), v.ty.arg)
+            if n == 'hash' and 'str_hash' in s.spec.ufuns:
+                v = s.ev(st, e.args[0])
+                if v.ty.kind == 'tuple' and len(v.t) == 2: return SV(s.spec.ufuns['str_hash'][0](v.t[0].t, v.t[1].t), INT)
+                raise Unsupported('hash of a non-pair')
             if n == 'list':
                 if not e.args: return s.new_list(st, ListT(INT), IntVal(0), lambda k: IntVal(0))
                 v = s.ev(st, e.args[0])
@@ -491,10 +506,14 @@ class Exec:
                 cls = fn.value.id; c, m = s.p.method(cls, fn.attr)
                 if m is None and cls in s.p.classes and s.p.classes[cls].dataclass: raise Unsupported('dataclass classmethod')
                 args = [s.ev(st, a) for a in e.args]
-                return s.call(st, m, args, owner=c, cls_arg=cls)
+                kw = {k.arg: s.ev(st, k.value) for k in e.keywords}
+                return s.call(st, m, args, owner=c, cls_arg=cls, kwargs=kw)
             if isinstance(fn.value, ast.Name) and fn.value.id == 'cls' and 'cls' in st.env and isinstance(st.env['cls'], str):
                 cls = st.env['cls']; raise Unsupported('cls.method')
             o = s.ev(st, fn.value)
+            if o.ty.kind == 'ref' and o.ty.arg in s.p.classes and not e.args and (s.p.field_ty(o.ty.arg, fn.attr) or Ty('x')).kind == 'thunk':
+                fty = s.p.field_ty(o.ty.arg, fn.attr)
+                return SV(s.read(st, o.t, o.ty.arg, fn.attr).t, fty.arg)
             if o.ty.kind == 'list': return s.list_method(st, o, fn.attr, e)
             if o.ty.kind == 'ref':
                 s.oblige(st, f'nonnull[{ast.unparse(fn.value)}]@{e.lineno}', o.t != 0, 'safety')
@@ -903,9 +922,10 @@ class Exec:
         c = s.truth(s.ev(st, n.test)); s.oblige(st, f'assert@{n.lineno}', c); st.pc.append(c); yield st
     def st_If(s, st, n, ctx):
         c = s.truth_st(st, s.ev(st, n.test))
+        cs = simplify(c)
         a = st.fork(); a.pc.append(c); b = st.fork(); b.pc.append(Not(c))
-        yield from s.run(a, n.body, ctx)
-        yield from s.run(b, n.orelse, ctx)
+        if not is_false(cs): yield from s.run(a, n.body, ctx)          # statically dead branches (type tests on the static type) are not executed
+        if not is_true(cs): yield from s.run(b, n.orelse, ctx)
     def st_AnnAssign(s, st, n, ctx):
         if n.value is None: yield st; return
         v = None
@@ -982,7 +1002,20 @@ class Exec:
         for node in [x for st_ in stmts for x in ast.walk(st_)]:
             if isinstance(node, ast.Name) and isinstance(node.ctx, ast.Store): loc.add(node.id)
             if isinstance(node, (ast.Yield, ast.YieldFrom)): add('list', ast.Name(id='$out'))
-            if isinstance(node, ast.Attribute) and isinstance(node.ctx, ast.Store): add('*.' + node.attr, node.value)
+            if isinstance(node, ast.Attribute) and isinstance(node.ctx, ast.Store):
+                add('*.' + node.attr, node.value)
+                for c_ in s.p.classes:
+                    for m_ in s.p.classes[c_].methods.get(node.attr, []):
+                        if any(ast.unparse(d_).endswith('.setter') for d_ in m_.decorator_list):
+                            q_ = s.qual(c_, m_.name) + '.setter'
+                            if q_ in seen: continue
+                            seen.add(q_)
+                            ct_ = s.spec.contracts.get(q_)
+                            if ct_ is not None:
+                                if ct_.modifies is None: heap.add('*')
+                                else: heap |= {(('freshpat', s.parse_mod(x_)[0]) if s.parse_mod(x_)[1] == 'fresh' else s.parse_mod(x_)[0]) for x_ in ct_.modifies}
+                            else:
+                                l2_, h2_ = s.modset(m_.body, c_, seen, top=False); heap |= h2_
             if isinstance(node, ast.AugAssign):
                 t = node.target
                 if isinstance(t, ast.Name): loc.add(t.id)
@@ -1158,6 +1191,8 @@ class Exec:
                 return N, bind, None
             enum = isinstance(it, ast.Call) and isinstance(it.func, ast.Name) and it.func.id == 'enumerate'
             seq = s.ev(st_, it.args[0] if enum else it)
+            if seq.ty.kind == 'ref' and seq.ty.arg in s.p.classes and s.p.method(seq.ty.arg, '__iter__')[1] is not None:
+                c_, m_ = s.p.method(seq.ty.arg, '__iter__'); seq = s.call(st_, m_, [seq], owner=c_)
             if seq.ty.kind != 'list': raise Unsupported(f'for over {seq.ty}')
             N = s.llen(st_.heap, seq); arr0 = s.lelem(st_.heap, seq)
             def bind(sx, c, entry=False):
